@@ -126,6 +126,11 @@ var fortune = ev.Register(&ev.P[birthCase]{
 		}
 		l := gen.Solar(t).GetLunar()
 		ec := l.GetEightChar()
+		// the fortune is no function of the chart's day-boundary switch: one case in three flips it first (every 23:xx
+		// case does, where the switch changes the day pillar)
+		if t.H == 23 || (t.D+t.Mi)%3 == 0 {
+			ec.SetSect(1)
+		}
 		yun := ec.GetYunBySect(c.Gender, c.Sect)
 		w := fmt.Sprintf("%v gender=%d school=%d", t, c.Gender, c.Sect)
 		if yun.GetGender() != c.Gender {
